@@ -35,6 +35,28 @@ func writeFileRules(c *Ctx) {
 	}
 	hashT, sizeT, fT, rT := paramTerm(fl, pIdx["hash"]), paramTerm(fl, pIdx["size"]), paramTerm(fl, pIdx["f"]), paramTerm(fl, pIdx["r"])
 	kindT := paramTerm(fl, pIdx["kind"])
+	// the stream that is hashed and stored is the caller's reader itself: the reader parameter is
+	// never replaced (a wrapper such as io.LimitReader would hide trailing or missing bytes from
+	// the verifier and from the byte count)
+	if rp := readerParam(fl); rp != nil {
+		reassigned := ""
+		ast.Inspect(fi.Decl.Body, func(n ast.Node) bool {
+			if as, ok := n.(*ast.AssignStmt); ok {
+				for _, lhs := range as.Lhs {
+					if identObj(fi.Pkg.TypesInfo, lhs) == rp {
+						reassigned = c.P.Pos(as.Pos()) + ": " + exprStr(as.Lhs[0]) + " " + as.Tok.String() + " ..."
+					}
+				}
+			}
+			return true
+		})
+		rT = objID(rp)
+		R.Check(reassigned == "", "R01c", c.Cfg+kWriteFile+":reader-unchanged", c.P.Pos(fi.Decl.Pos()),
+			"the reader that is verified and stored is the function's own reader parameter, never a replacement or wrapper",
+			"the reader parameter is reassigned before it is consumed ("+reassigned+"): the verifier no longer sees the whole upload")
+	} else {
+		R.Fail("R01c", c.Cfg+kWriteFile+":reader-unchanged", c.P.Pos(fi.Decl.Pos()), "writeAndCloseFile has no io.Reader parameter: unrecognised construct")
+	}
 	var base *Base
 	nsucc := 0
 	base = NewBase(Hooks{
